@@ -2,7 +2,7 @@
     Statements only; proofs are in Gql/ProofsSched.v, Gql/ProofsErr.v. *)
 From Coq Require Import List String Bool Arith Permutation.
 From Thunder Require Import Lib.Json Gql.Types Gql.Value Gql.Query Gql.Ref Gql.Exec Gql.Check Gql.Envelope
-  Gql.ProofsSched Gql.ProofsErr Gql.ProofsRef Gql.ProofsMain.
+  Gql.ProofsSched Gql.ProofsErr Gql.ProofsRef Gql.ProofsMain Gql.ProofsEnt Gql.ProofsTop.
 Import ListNotations.
 Open Scope string_scope.
 Open Scope list_scope.
@@ -38,12 +38,12 @@ Print Assumptions failing_unit_fails_query_partial.
     completed run, under every schedule and every execution-mode assignment, returns the reference data. *)
 Theorem no_needed_failure_returns_reference : forall S fuel rf q root sched,
   needed_failures S fuel q root = [] ->
-  NoDup (map fst (ent [] (fst (eval_ref S fuel q root)))) ->
+  json_keys_unique (fst (eval_ref S fuel q root)) = true ->
   jdepth (fst (eval_ref S fuel q root)) <= Datatypes.S rf ->
   exists st0, init fixed S q root = inl st0 /\
     (complete (run_sched fixed S fuel sched st0) = true ->
      finish rf (run_sched fixed S fuel sched st0) = Some (ROk (fst (eval_ref S fuel q root)))).
-Proof. exact ProofsMain.execution_equals_reference. Qed.
+Proof. exact ProofsTop.execution_equals_reference_k. Qed.
 Print Assumptions no_needed_failure_returns_reference.
 
 (** errorRecorder: once a failure is recorded no later step replaces it. *)
